@@ -7,6 +7,7 @@ Transliteration (bug-compatible) of
   `primitive.*Primitive._render_value`, `float.FloatExpression.rebuild`,
   `NixExpression.add_trivia` (with empty `before`/`after`, which is what constructed objects have),
 * `list.NixList._item_requires_multiline/_auto_multiline/_inline_preview/simple_inline_preview/rebuild`,
+  `list._coerce_list_item/_is_negative_number_literal`, `parenthesis.Parenthesis.rebuild` (empty gaps),
 * `binding.Binding.__post_init__/rebuild` (default `value_gap = " "`),
 * `set.AttributeSet.__post_init__/from_dict/rebuild/__setitem__`, `set._render_bindings`.
 
@@ -61,6 +62,12 @@ def stringEscapesInterpolation : Bool := false
     before `int`: `True` is a boolean, not the integer 1). The constructors of `Elem` are these classes. -/
 def coerceOrder : List String := ["NixExpression", "None", "bool", "int", "float", "list", "str"]
 def primitiveOrder : List String := ["bool", "None", "int", "str"]
+/-- `list._is_negative_number_literal`: the class tests and what each returns. -/
+def negLiteralTests : List (String × String) :=
+  [("IntegerPrimitive", "value<0"), ("FloatExpression", "value.startswith:-")]
+/-- Which functions of `NixList` coerce an item with `_coerce_list_item` (negative number literals get
+    parentheses) and which with plain `coerce_expression` (the multiline probe). -/
+def listItemCoercers : List String × List String := (["_inline_preview", "render_item"], ["_auto_multiline"])
 
 /-! ## Construction -/
 
@@ -150,6 +157,18 @@ def listText (multiline : Bool) (items : List Text) (indent : Nat) (inline : Boo
     let indentor := if inline then [] else spaces indent
     indentor ++ ('[' :: ' ' :: itemsStr) ++ [' ', ']']
 
+/-- `list._is_negative_number_literal(coerce_expression(item))`: an `IntegerPrimitive` with
+    `value < 0`, a `FloatExpression` whose `value` (the repr) starts with `-`. -/
+def isNegLiteral : Elem → Bool
+  | .int i => i < 0
+  | .float r => r.head? == some '-'
+  | _ => false
+
+/-- `Parenthesis(value=bare).rebuild(indent, inline)` for a constructed parenthesis (empty gaps, no
+    trivia), given `inner = bare.rebuild(indent, inline=True)`: `add_trivia(f"({inner})", …)`. -/
+def parenText (inner : Text) (indent : Nat) (inline : Bool) : Text :=
+  addTrivia ('(' :: (inner ++ [')'])) indent inline
+
 mutual
 /-- `coerce_expression(item).rebuild(indent, inline)` for a scalar or list. -/
 def renderElem : Elem → Nat → Bool → Text
@@ -168,12 +187,16 @@ def renderElem : Elem → Nat → Bool → Text
     else
       -- `render_item`: `expr.rebuild(indent=indented, inline=not multiline)`
       listText multiline (renderItems xs indented (!multiline)) i inl
-/-- `[render_item(item) for item in self.value]` -/
+/-- `[render_item(item) for item in self.value]` with `render_item(item) =
+    _coerce_list_item(item).rebuild(indent, inline)`: a negative number literal is wrapped in a
+    `Parenthesis`, everything else is rendered as it is. -/
 def renderItems : List Elem → Nat → Bool → List Text
   | [], _, _ => []
-  | x :: xs, i, inl => renderElem x i inl :: renderItems xs i inl
+  | x :: xs, i, inl =>
+    (if isNegLiteral x then parenText (renderElem x i true) i inl else renderElem x i inl)
+      :: renderItems xs i inl
 /-- `any(self._item_requires_multiline(coerce_expression(item)) for item in self.value)`:
-    the item is rendered at `indent=0, inline=True` and searched for a newline. -/
+    the item (not parenthesised here) is rendered at `indent=0, inline=True` and searched for a newline. -/
 def anyItemNl : List Elem → Bool
   | [] => false
   | x :: xs => hasNl (renderElem x 0 true) || anyItemNl xs
